@@ -371,9 +371,9 @@ PROPERTY = {
     ),
     "assumptions": ["HDDDM/CDBD detect_batch=1 is outside the property (reference split by position)"],
     "subchecks": [
-        SubCheck("hdm", check_hdm, strategy=strat_hdm, nontrivial=lambda L: "nontrivial" in L, quick=300, thorough=6000, shards_quick=8, describe=_desc),
-        SubCheck("kdq_batch", check_kdq, strategy=strat_kdq, nontrivial=lambda L: "nontrivial" in L, quick=150, thorough=3000, shards_quick=8, describe=_desc),
-        SubCheck("kdq_batch_large", check_kdq_large, strategy=strat_kdq_large, nontrivial=lambda L: "nontrivial" in L, quick=48, thorough=800, shards_quick=16, describe=_desc_large),
-        SubCheck("nndvi", check_nndvi, strategy=strat_nndvi, nontrivial=lambda L: "nontrivial" in L, quick=250, thorough=5000, shards_quick=8, describe=_desc),
+        SubCheck("hdm", check_hdm, strategy=strat_hdm, nontrivial=lambda L: "nontrivial" in L, quick=300, thorough=12000, shards_quick=8, describe=_desc),
+        SubCheck("kdq_batch", check_kdq, strategy=strat_kdq, nontrivial=lambda L: "nontrivial" in L, quick=150, thorough=6000, shards_quick=8, describe=_desc),
+        SubCheck("kdq_batch_large", check_kdq_large, strategy=strat_kdq_large, nontrivial=lambda L: "nontrivial" in L, quick=48, thorough=1600, shards_quick=16, describe=_desc_large),
+        SubCheck("nndvi", check_nndvi, strategy=strat_nndvi, nontrivial=lambda L: "nontrivial" in L, quick=250, thorough=10000, shards_quick=8, describe=_desc),
     ],
 }
